@@ -106,6 +106,7 @@ class IoWorld(World):
         self.fmt_read = DEFAULT
         self.fmt_print = DEFAULT
         self.cat = {}            # path -> catalogue entry
+        self.opts = {}           # session -> option dictionary the user keeps and updates between reads
         self.objs = {}           # (session, name) -> real in-memory object + model info
         self.counter = 0
         # generator state
@@ -241,14 +242,21 @@ class IoWorld(World):
         ids = [perm[0], perm[1], perm[2] if use_u else -1, perm[2 + use_u] if use_t else -1]
         sep = r.choice([",", ";"]) if use_t else r.choice([",", ";", " "])
         path = self._path(r, s, "f", ".csv")
-        st = {"op": "write_csv", "path": path, "track": self._gen_track(r, kind), "ids": ids,
+        tspec = self._gen_track(r, kind)
+        if kind in ("GEO", "ECEF") and r.random() < 0.2:
+            # the track is built geographic and converted in place (ECEF and back) before it is written
+            g = self._gen_track(r, "GEO")
+            g["conv"] = ["ECEF", "GEO"] if kind == "GEO" else ["ECEF"]
+            g["kind"] = kind
+            tspec = g
+        st = {"op": "write_csv", "path": path, "track": tspec, "ids": ids,
               "sep": sep, "h": 1 if r.random() < 0.15 else 0}
         if r.random() < 0.25:
             st["wapi"] = "tocsv"
         f = self._fault(r, WRITE_FAULTS)
         if f:
             st["fault"] = f
-        api = r.choice(["csv", "csv", "file", "file_tf"])
+        api = r.choice(["csv", "csv", "file", "file_tf", "shared"])
         rd = {"op": "read_csv", "path": path, "api": api, "s": s, "dt": 1}
         f = self._fault(r, READ_FAULTS)
         if f:
@@ -296,6 +304,8 @@ class IoWorld(World):
         q.append({"op": "set_read_format", "fmt": r.choice(GPX_OK_READ) if r.random() < 0.2 else GPX_FMT,
                   "s": s, "dt": 0})
         rd = {"op": "read_gpx" if one else "read_gpx_dir", "path": path, "s": s, "dt": 1}
+        if one and r.random() < 0.3:
+            rd["api"] = "shared"
         if not one:
             rd["ls"] = r.randrange(1000)
         f = self._fault(r, READ_FAULTS if one else DIR_READ_FAULTS)
@@ -391,6 +401,24 @@ class IoWorld(World):
             t.createAnalyticalFeature("a", spec["af"])
         return t
 
+    def _track_conv(self, spec):
+        """Track built geographic and converted in place through spec["conv"]; returns the
+        track and the specification of what it holds when it is written (coordinates read
+        from the real object: the conversions themselves are C14's subject, not judged)."""
+        if "conv" not in spec:
+            return self._track(spec), spec
+        t = self._track(dict(spec, kind="GEO"))
+        for k in spec["conv"]:
+            _, exc = self.call(t.toECEFCoords if k == "ECEF" else t.toGeoCoords)
+            if exc is not None:
+                raise Skip()
+        eff = dict(spec)
+        eff.pop("conv")
+        eff["obs"] = [[o.position.getX(), o.position.getY(), o.position.getZ(), list(old[3])]
+                      for o, old in zip(t, spec["obs"])]
+        self.probe("track_converted_in_place_before_writing")
+        return t, eff
+
     def _network(self, spec):
         from tracklib.core import Track, Obs, Network, Node, Edge, makeCoords
         net = Network()
@@ -436,6 +464,7 @@ class IoWorld(World):
         for p in set(torn) | set(touched):
             self._unknown(p)
         self.objs.clear()                 # every in-memory object of every session is gone
+        self.opts.clear()
         simfs.reset_globals()             # emulated restart: import-time globals
         self.fmt_read = DEFAULT
         self.fmt_print = DEFAULT
@@ -534,7 +563,7 @@ class IoWorld(World):
     # -- CSV ------------------------------------------------------------------------
     def op_write_csv(self, st):
         from tracklib.io.track_writer import TrackWriter
-        track = self._track(st["track"])
+        track, eff = self._track_conv(st["track"])
         ids = st["ids"]
         self._outcome = "ok"
         if st["path"] in self.cat and self.cat[st["path"]]["state"] == "acked":
@@ -551,7 +580,7 @@ class IoWorld(World):
             rv, exc, fired = self._io_call(st, TrackWriter.writeToFile, track, st["path"], ids[0], ids[1],
                                            ids[2], ids[3], st["sep"], st.get("h", 0))
         if self._write_outcome(st, exc, fired, [st["path"]], "csv.write.raised"):
-            self.cat[st["path"]] = {"type": "csv", "state": "acked", "track": st["track"], "ids": ids,
+            self.cat[st["path"]] = {"type": "csv", "state": "acked", "track": eff, "ids": ids,
                                     "sep": st["sep"], "h": st.get("h", 0),
                                     "print_fmt": self.fmt_print, "owner": st.get("s", 0)}
             if st.get("h", 0):
@@ -602,6 +631,20 @@ class IoWorld(World):
                 self.probe("stale_format_object_other_global")
             self.probe("format_object_built_earlier")
             rv, exc, fired = self._io_call(st, TrackReader.readFromFile, st["path"], o["obj"])
+        elif api == "shared":
+            # the user keeps ONE option dictionary and updates it before every read; he never sets
+            # srid in it and relies on the documented default of the extension (CSV: ENU, GPX: GEO)
+            if kind != "ENU" or (use_t and self.fmt_read != e["print_fmt"]):
+                raise Skip()
+            d = self.opts.setdefault(st.get("s", 0), {})
+            d.update({"ext": "CSV", "id_E": ids[0], "id_N": ids[1], "id_U": ids[2], "id_T": ids[3],
+                      "separator": e["sep"], "header": e["h"]})
+            tf, exc0 = self.call(TrackFormat, d)
+            if exc0 is not None:
+                self.fail("C13", "trackformat.raised", "TrackFormat(dict) raised %r" % (exc0,))
+                return "raised"
+            self.probe("option_dictionary_reused_between_reads")
+            rv, exc, fired = self._io_call(st, TrackReader.readFromFile, st["path"], tf)
         elif api == "csv":
             if use_t and self.fmt_read != e["print_fmt"]:
                 raise Skip()
@@ -704,7 +747,18 @@ class IoWorld(World):
         if self.fmt_read not in GPX_OK_READ:
             raise Skip()
         self._outcome = "ok"
-        rv, exc, fired = self._io_call(st, TrackReader.readFromGpx, st["path"])
+        if st.get("api") == "shared":
+            from tracklib.io.track_format import TrackFormat
+            d = self.opts.setdefault(st.get("s", 0), {})
+            d.update({"ext": "GPX"})
+            tf, exc0 = self.call(TrackFormat, d)
+            if exc0 is not None:
+                self.fail("C13", "trackformat.raised", "TrackFormat(dict) raised %r" % (exc0,))
+                return "raised"
+            self.probe("option_dictionary_reused_between_reads")
+            rv, exc, fired = self._io_call(st, TrackReader.readFromFile, st["path"], tf)
+        else:
+            rv, exc, fired = self._io_call(st, TrackReader.readFromGpx, st["path"])
         if self._read_outcome(exc, fired, "gpx.read.raised"):
             self._judge_collection("gpx", e["tracks"], rv, True, True, ordered=True)
         return self._outcome
